@@ -226,7 +226,8 @@ class Driver:
                     if "461" in codes or "421" in codes:
                         self.bad("framing:spurious-%s:%s" % ("461" if "461" in codes else "421", verb),
                                  "%r answered %s" % (line, [m.raw for m in lines][:3]))
-        for v in ["FOO", "PRIVMSGX", "JOI", "00", "ÉCRIRE", "P"]:
+        for v in ["FOO", "PRIVMSGX", "JOI", "00", "ÉCRIRE", "P", "PRıVMSG", "TOPıC", "nıck", "uſer", "paß", "LIﬆ", "quıt",
+                  "JOıN", "kıck", "awaſ"]:
             a.send(v + " a b")
             try:
                 lines = a.ping("un", 5.0)
@@ -244,6 +245,12 @@ class Driver:
     # ---- invalid parameters are answered with an error and not executed
     def invalid(self, srv):
         a, o = self.pair(srv, "iv")
+        if self.hooks:
+            # clients of the earlier phases are torn down asynchronously: wait until only this pair is left, so
+            # that a snapshot difference can only come from the line under test
+            deadline = time.monotonic() + 5.0
+            while time.monotonic() < deadline and set(srv.snap()["users"]) != {"activ", "obsiv"}:
+                time.sleep(0.005)
         for line in INVALID:
             before = srv.snap() if self.hooks else None
             a.send(line)
